@@ -65,6 +65,7 @@ func main() {
 		ClassifyDeath: classifyDeath,
 		Post: func(c *ev.Check, outs []*run.Outcome) {
 			c.Require("concpoll.responses_judged", 100)
+			c.Require("max.archived_weeks_longhist", 105)
 			c.Require("query.future.beyond32bits_aligned_in_64_bits", 1)
 			c.Require("max.archive_file_bytes", 4<<20+1)             // a history file larger than 4 MiB was restarted on
 			c.Require("max.devices_in_rotation", 130)                // a single record larger than 4 MiB
@@ -129,6 +130,9 @@ func plan(tier string, seed int64) []run.Batch {
 		for i := 0; i < 4; i++ {
 			bs = append(bs, run.Batch{Kind: "deep", Seed: seed*100000 + 9700 + int64(i), N: 1, TimeoutS: 600, Params: map[string]string{"devices": fmt.Sprint(10 + 2*i), "rounds": fmt.Sprint(6 + i)}})
 		}
+		for i := 0; i < 3; i++ {
+			bs = append(bs, run.Batch{Kind: "longhist", Seed: seed*100000 + 9950 + int64(i), N: 1, TimeoutS: 400})
+		}
 		for i := 0; i < 6; i++ {
 			bs = append(bs, run.Batch{Kind: "concpoll", Seed: seed*100000 + 9900 + int64(i), N: 1, TimeoutS: 400})
 		}
@@ -147,6 +151,7 @@ func plan(tier string, seed int64) []run.Batch {
 	bs = append(bs, run.Batch{Kind: "deep", Seed: seed*100000 + 9700, N: 1, TimeoutS: 400, Params: map[string]string{"devices": "12", "rounds": "6"}})
 	bs = append(bs, run.Batch{Kind: "tornlog", Seed: seed*100000 + 9800, N: 1, TimeoutS: 400})
 	bs = append(bs, run.Batch{Kind: "concpoll", Seed: seed*100000 + 9900, N: 1, TimeoutS: 400})
+	bs = append(bs, run.Batch{Kind: "longhist", Seed: seed*100000 + 9950, N: 1, TimeoutS: 400})
 	bs = append(bs, run.Batch{Kind: "diskfault", Seed: seed*100000 + 9500, N: 1, TimeoutS: 600, Params: map[string]string{"mode": "dir"}})
 	bs = append(bs, run.Batch{Kind: "diskfault", Seed: seed*100000 + 9501, N: 1, TimeoutS: 600, Params: map[string]string{"mode": "partial"}})
 	return bs
@@ -1333,6 +1338,8 @@ func child(b run.Batch, r *ev.Result) {
 		childDeep(b, r)
 	case "concpoll":
 		childConcPoll(b, r)
+	case "longhist":
+		childLongHist(b, r)
 	case "tornlog":
 		childTornLog(b, r)
 	case "bigrot":
